@@ -28,8 +28,8 @@ def main(tier):
     errs = gen_grad.generate(REPO, os.path.join(ck.dyn, "GenGrad.v"))
     ck.stage_a(errs, ["GenGrad.v"], "TieGrad.v", "C11.v", tie_text=modties.grad_tie_text())
     rng = ck.rng
-    nex = 150 if tier == "quick" else 1500
-    nmod = 60 if tier == "quick" else 600
+    nex = 150 if tier == "quick" else 4000
+    nmod = 60 if tier == "quick" else 2000
     exact = []
     for i in range(nex):
         lead = [rng.randint(1, 4) for _ in range(rng.randint(1, 3))]
